@@ -18,24 +18,24 @@ ALLOWED_AXIOMS = {"propext", "Classical.choice", "Quot.sound"}
 
 # property → streams run by the harness, translator items the theorems depend on, extra Lean modules
 PROPS = {
-    "C01": dict(streams=["c01"], items=["keycodes", "layoutkeys", "charclasses", "rankcmp", "okkhor", "panicsites"]),
-    "C02": dict(streams=["c01"], items=["keycodes", "layoutkeys", "charclasses", "rankcmp", "okkhor"]),
-    "C05": dict(streams=["c05"], items=["keycodes", "charclasses", "rankcmp", "okkhor"]),
-    "C06": dict(streams=["c06", "c01"], items=["keycodes", "layoutkeys", "charclasses", "rankcmp", "okkhor"]),
-    "C07": dict(streams=["c07"], items=["keycodes", "charclasses", "rankcmp", "okkhor"]),
-    "C08": dict(streams=["c07"], items=["keycodes", "charclasses", "rankcmp", "okkhor"]),
-    "C09": dict(streams=["c09"], items=["keycodes", "charclasses", "rankcmp", "okkhor"]),
-    "C10": dict(streams=["c10"], items=["keycodes", "charclasses", "rankcmp", "okkhor"]),
-    "C11": dict(streams=["c11"], items=["keycodes", "layoutkeys", "charclasses", "rankcmp", "okkhor"]),
+    "C01": dict(streams=["c01"], items=["keycodes", "layoutkeys", "charclasses", "rankcmp", "okkhor", "okkhorregex", "panicsites"]),
+    "C02": dict(streams=["c01"], items=["keycodes", "layoutkeys", "charclasses", "rankcmp", "okkhor", "okkhorregex"]),
+    "C05": dict(streams=["c05"], items=["keycodes", "charclasses", "rankcmp", "okkhor", "okkhorregex"]),
+    "C06": dict(streams=["c06", "c01"], items=["keycodes", "layoutkeys", "charclasses", "rankcmp", "okkhor", "okkhorregex"]),
+    "C07": dict(streams=["c07"], items=["keycodes", "charclasses", "rankcmp", "okkhor", "okkhorregex"]),
+    "C08": dict(streams=["c07"], items=["keycodes", "charclasses", "rankcmp", "okkhor", "okkhorregex"]),
+    "C09": dict(streams=["c09"], items=["keycodes", "charclasses", "rankcmp", "okkhor", "okkhorregex"]),
+    "C10": dict(streams=["c10"], items=["keycodes", "charclasses", "rankcmp", "okkhor", "okkhorregex"]),
+    "C11": dict(streams=["c11"], items=["keycodes", "layoutkeys", "charclasses", "rankcmp", "okkhor", "okkhorregex"]),
     "C15": dict(streams=["c15"], items=["keycodes", "layoutkeys", "charclasses", "rankcmp"]),
-    "C16": dict(streams=["c16"], items=["keycodes", "layoutkeys", "charclasses", "rankcmp", "okkhor", "bijoy"]),
-    "C17": dict(streams=["c17"], items=["keycodes", "layoutkeys", "charclasses", "rankcmp", "okkhor"]),
-    "C18": dict(streams=["c18"], items=["keycodes", "layoutkeys", "charclasses", "rankcmp", "okkhor"]),
-    "C19": dict(streams=["c19"], items=["keycodes", "layoutkeys", "charclasses", "rankcmp", "okkhor"], prebuild="ffi/build.sh"),
+    "C16": dict(streams=["c16"], items=["keycodes", "layoutkeys", "charclasses", "rankcmp", "okkhor", "okkhorregex", "bijoy"]),
+    "C17": dict(streams=["c17"], items=["keycodes", "layoutkeys", "charclasses", "rankcmp", "okkhor", "okkhorregex"]),
+    "C18": dict(streams=["c18"], items=["keycodes", "layoutkeys", "charclasses", "rankcmp", "okkhor", "okkhorregex"]),
+    "C19": dict(streams=["c19"], items=["keycodes", "layoutkeys", "charclasses", "rankcmp", "okkhor", "okkhorregex"], prebuild="ffi/build.sh"),
     "C12": dict(streams=["c12"], items=["keycodes", "layoutkeys", "charclasses"]),
     "C13": dict(streams=["c13"], items=["keycodes", "layoutkeys", "charclasses"]),
     "C14": dict(streams=["c14"], items=["keycodes", "layoutkeys", "charclasses"]),
-    "C03": dict(streams=["c03"], items=["keycodes", "charclasses", "okkhor"]),
+    "C03": dict(streams=["c03"], items=["keycodes", "charclasses", "okkhor", "okkhorregex"]),
     "C04": dict(streams=["c04"], items=["keycodes", "layoutkeys", "charclasses"]),
 }
 
@@ -67,7 +67,12 @@ def strip_lean_comments(src):
 
 # further theorem modules owned by a property: (file under RitiModel/, namespace, lake module)
 EXTRA = {
-    "C06": [(os.path.join("Props", "C06Phonetic.lean"), "C06P", "RitiModel.Props.C06Phonetic")],
+    "C06": [(os.path.join("Props", "C06Phonetic.lean"), "C06P", "RitiModel.Props.C06Phonetic"),
+            (os.path.join("Props", "C06Fixed.lean"), "C06F", "RitiModel.Props.C06Fixed")],
+    # the dictionary look-up (regex generator, reader, matcher) inside the model
+    "C07": [(os.path.join("Props", "Regex.lean"), "Regex", "RitiModel.Props.Regex")],
+    "C08": [(os.path.join("Props", "Regex.lean"), "Regex", "RitiModel.Props.Regex"),
+            (os.path.join("Props", "RegexTotal.lean"), "Regex", "RitiModel.Props.RegexTotal")],
     "C16": [(os.path.join("Props", "Bijoy.lean"), "Bijoy", "RitiModel.Props.Bijoy")],
     # the JSON fragment of the per-user files (reader, writer, UTF-8 layer, crash points of the save)
     "C09": [(os.path.join("Props", "Json.lean"), "Json", "RitiModel.Props.Json")],
